@@ -3,7 +3,8 @@
 From Coq Require Import List NArith Arith.
 From DS Require Import Gen.Constants Base.Bytes Base.Hash Base.Sched Model.Assemble Model.Clone
      Model.VerifyIndex Model.Sequencer Proofs.AssembleProofs Proofs.CloneProofs Proofs.SequencerProofs
-     Proofs.AssembleSeqProofs Proofs.AssembleLive Proofs.AssembleTraceProofs Model.SelfSeed Proofs.SelfSeedProofs.
+     Proofs.AssembleSeqProofs Proofs.AssembleLive Proofs.AssembleTraceProofs Model.SelfSeed Proofs.SelfSeedProofs
+     Model.Pool Proofs.PoolProofs.
 Import ListNotations.
 
 (* SAFETY.  For every index, every plan that tiles it, every initial content of the (truncated)
@@ -150,6 +151,33 @@ Theorem C01_selfseed_sound : forall (ids : list id) (adds : list (nat * nat)) (x
   nth_error ids p = Some x /\ covered_by adds p /\ (forall q, q < p -> nth_error ids q <> Some x).
 Proof. exact selfseed_sound. Qed.
 Print Assumptions C01_selfseed_sound.
+
+(* NEVER HANGS (goroutine protocol).  AssembleFile's feeder / N workers / errgroup / context is the
+   skeleton of Model/Pool.v (jobs = plan entries; job_ok k = "the body of job k returned nil"; the
+   environment may cancel at any moment; Plan.Validate is the same skeleton).  For every number of
+   jobs, every outcome of every job body, every worker count >= 1, every schedule and every
+   cancellation point: a non-final state has an enabled thread (no deadlock, no lost hand-over),
+   every run of enabled steps is at most mu(init) long (termination under any scheduler), and nil
+   is returned only when every job ran and succeeded.  Assumed, not proved: each job BODY returns
+   (finite file I/O, one store call per chunk, selfSeed's mutex held only inside add/getChunk). *)
+Theorem C01_pool_deadlock_free : forall njobs job_ok can_cancel nw sched,
+  let s := run (Pool.step njobs job_ok can_cancel) sched (Pool.init nw) in
+  0 < nw -> final s = false -> exists t, Pool.step njobs job_ok can_cancel s t <> None.
+Proof. exact pool_deadlock_free. Qed.
+Print Assumptions C01_pool_deadlock_free.
+
+Theorem C01_pool_terminates : forall njobs job_ok can_cancel nw sched s',
+  run_strict (Pool.step njobs job_ok can_cancel) sched (Pool.init nw) = Some s' ->
+  length sched <= mu njobs (Pool.init nw).
+Proof. exact pool_terminates. Qed.
+Print Assumptions C01_pool_terminates.
+
+Theorem C01_pool_nil_means_all_jobs : forall njobs job_ok can_cancel nw sched,
+  let s := run (Pool.step njobs job_ok can_cancel) sched (Pool.init nw) in
+  final s = true -> pool_result s = RNil ->
+  forall k, k < njobs -> In k (processed s) /\ job_ok k = true.
+Proof. exact pool_sound. Qed.
+Print Assumptions C01_pool_nil_means_all_jobs.
 
 (* Non-vacuity: target rows 1 2 3 1 2; a null seed, a seed (9 1 2 3) without reflinks, a reflink
    seed (2 3 1 2 4).  Rows 0-2 and 3-4 come from seed 1 (ties go to the first seed); with seed 1
